@@ -60,10 +60,11 @@ func c08(c *core.Check) {
 	c.Explain = "constants + TMPL/PATH. (i) buildSynthesized (AST + constant evaluation): the args struct takes the function's arguments unchanged (IDL ids); a result struct exists iff the function is not oneway; its first field is {ID: 0, Name: \"success\", Requiredness: Optional, Type: FunctionType} iff the function is not void; the throws follow it. " +
 		"(ii) every abstract rendering of ThriftClient (void/oneway x 0..1 args x 0..1 throws x extends): one Call(ctx, \"<IDL name>\", &_args, nil iff oneway else &_result); every argument is copied into _args; each declared exception is tested and returned before the success value; non-void returns _result.GetSuccess(). " +
 		"(iii) every rendering of ThriftProcessor: the dispatch key, the client's call name and every WriteMessageBegin name are the same IDL-name placeholder (not the Go name); success path: WriteMessageBegin(name, thrift.REPLY, seqId), result.Write, WriteMessageEnd, Flush in this order (go/cfg typestate); a failed args.Read and an undeclared handler error write an EXCEPTION message; the type switch has one case per throws field assigning that result field; non-void stores retval into result.Success; oneway functions never touch oprot; without extends Process answers an unknown method with Skip(STRUCT) + EXCEPTION, with extends the base processor is embedded and constructed. " +
-		"NOT decided: values, seq-id checking inside apache TStandardClient, streaming methods (they panic by design)."
+		"(iv) the base of `extends inc.Y` is looked up in the scope of the include the reference points to. NOT decided: values, seq-id checking inside apache TStandardClient, streaming methods (they panic by design)."
 	c.RuleText = "one obligation per (rule, unit) over all distinct renderings plus one per buildSynthesized clause"
 	c.Assume = []string{"apache/thrift's TStandardClient.Call and TProcessor contract", "args/result structs are rendered by the StructLike templates (C02)"}
 	c08synth(c)
+	c08baseScope(c)
 	st := tmplEngine(c)
 	if st == nil {
 		return
